@@ -177,6 +177,11 @@ def knob_file(rng, c, junk=True):
         # share an earlier copy, or store a new (possibly duplicate) copy, possibly after some junk
         if s in placed and rng.random() < 0.5:
             return rng.choice(placed[s])
+        # tail sharing (a string-pooling packer): point into the MIDDLE of a longer stored string that ends with s
+        hosts = [t for t in placed if len(t) > len(s) and t.endswith(s)]
+        if hosts and rng.random() < 0.5:
+            t = rng.choice(hosts)
+            return rng.choice(placed[t]) + len(t) - len(s)
         if junk and rng.random() < 0.3:
             tsec.extend(bytes(rng.choice([1, 65, 255]) for _ in range(rng.randint(1, 3))) + b"\0")
         o = len(tsec)
